@@ -348,6 +348,19 @@ theorem replace0_list : Repl0Spec .list (replace .list) := by
       exact not_true_false ha
     exact (ListM.faithful.inactive h).1 hf
 
+theorem replace0_multi (sc : Shape) : Repl0Spec (.multi sc) (replace (.multi sc)) := by
+  intro m h
+  show ∃ out, (do let (m', ch) ← Multi.replaceCore (ops sc) m 0
+                  if !Multi.isActive m' then nullRepl else pure (ch, (⟨.multi sc, m'⟩ : Any))) = _ ∧ _
+  have : Multi.replaceCore (ops sc) m 0 = .ok (m, false) := rfl
+  simp only [this, bind, Except.bind]
+  by_cases ha : Multi.isActive m = true
+  · simp only [ha, Bool.not_true, Bool.false_eq_true, ↓reduceIte]
+    exact ⟨_, rfl, Repl0OK.self (.multi sc) m h⟩
+  · simp only [ha, Bool.not_false, ↓reduceIte]
+    refine ⟨_, rfl, Repl0OK.null_of_empty ?_⟩
+    exact ((TF (.multi sc)).inactive h).1 (by show Multi.isActive m = false; simpa using ha)
+
 /-- `replace(0)` of every matcher tree preserves the remaining list -/
 theorem replace0_spec : ∀ s : Shape, Repl0Spec s (replace s)
   | .null => fun m h => ⟨(false, Any.null), rfl, Repl0OK.self .null m h⟩
@@ -363,5 +376,7 @@ theorem replace0_spec : ∀ s : Shape, Repl0Spec s (replace s)
   | .filter c => replace0_wrap_filter c (replace0_spec c)
   | .inverse c => replace0_wrap_inverse c (replace0_spec c)
   | .const c => replace0_wrap_const c (replace0_spec c)
+  | .multi c => replace0_multi c
+  | .aunion c => fun m h => ⟨(false, ⟨.aunion c, m⟩), rfl, Repl0OK.self (.aunion c) m h⟩
 
 end WM.Matcher
